@@ -24,6 +24,7 @@ func TestCorpus(t *testing.T) { vh.Corpus(t) }
 type Case struct {
 	Spec   bundlekit.Spec `json:"spec"`
 	Cycles int            `json:"cycles"` // extra write/read cycles (history)
+	ReadMode int          `json:"read_mode,omitempty"`
 }
 
 func urlString(u *url.URL) string {
@@ -66,7 +67,10 @@ var prop = vh.Define("C03", "roundtrip", func(c Case, r *vh.R) {
 		return
 	}
 	x0 := append([]byte{}, buf.Bytes()...)
-	rb, err := bundle.Read(bytes.NewReader(x0))
+	if c.ReadMode > 0 {
+		r.Class("plain-reader")
+	}
+	rb, err := bundle.Read(gen.Source(x0, c.ReadMode))
 	if err != nil {
 		r.Failf("read-error", "Read rejects the writer's output: %v", err)
 		return
@@ -121,6 +125,15 @@ var prop = vh.Define("C03", "roundtrip", func(c Case, r *vh.R) {
 			}
 		}
 		r.Class("fixpoint-checked")
+	}
+	// the first read-back must still be what it was after all the later writes and reads
+	// (nothing returned by the reader may alias state that later calls reuse)
+	if v := compare(s, x0, rb); v != "" {
+		r.Failf("result-changed-later", "the bundle read first changed while later bundles were written/read: %s", v)
+		return
+	}
+	if len(s.Exchanges) >= 24 {
+		r.Class("exchanges>=24")
 	}
 	boundary := false
 	for i := range s.Exchanges {
@@ -261,7 +274,7 @@ func compare(s *bundlekit.Spec, file []byte, rb *bundle.Bundle) string {
 
 func TestPropRoundTrip(t *testing.T) {
 	prop.Rapid(t, func(t *rapid.T) Case {
-		s := bundlekit.Gen(t)
-		return Case{Spec: *s, Cycles: rapid.IntRange(0, 3).Draw(t, "cycles")}
+		s := bundlekit.GenWide(t)
+		return Case{Spec: *s, Cycles: rapid.IntRange(0, 3).Draw(t, "cycles"), ReadMode: gen.DrawSourceMode(t, "readmode")}
 	})
 }
